@@ -1,5 +1,9 @@
 (* C14 - A vesting schedule releases exactly its total, monotonically, and never more.
    Only statements + [exact]; the proofs are in Proofs/VestingProofs.v, the model in Models/Vesting.v.
+   The model knows SEVERAL vesting infos: ueden -> uelys (MsgVest) and a bank-held liquid denom vested into itself
+   (MsgVestLiquid under its own governance VestingInfo); all schedules of an account live in ONE list, a claim pays
+   every entry in its own denom, a cancel touches only the ELYS entries. [outstanding] / [outstanding1] = not yet
+   released by the ELYS / the liquid schedules.
    [step]/[claim] model the code WITH the "fix:" commit (clamp in ClaimVesting); the pre-fix code is
    [step_prefix] and its failure is recorded by C14_prefix_claim_after_cancel_refuted. *)
 From Coq Require Import ZArith List Bool.
@@ -9,97 +13,152 @@ Open Scope Z_scope.
 
 (* One claim of one entry: cumulative released (v_claimed) is non-decreasing, never exceeds the
    total, equals max(previous, floor(total * min(elapsed, N) / N)) - the linear block schedule -
-   and equals the total once the schedule has elapsed. Never fails on an entry with N > 0. *)
+   and equals the total once the schedule has elapsed. Never fails on an entry with N > 0. The denom is kept. *)
 Theorem C14_entry_monotone_le_total_linear_complete : forall h v,
   live_entry v ->
   exists c v', claim_entry true h v = Ok (c, v') /\
     0 <= c /\
     v_claimed v' = v_claimed v + c /\
     v_claimed v <= v_claimed v' <= v_total v /\
-    v_total v' = v_total v /\ v_start v' = v_start v /\ v_num v' = v_num v /\
+    v_total v' = v_total v /\ v_start v' = v_start v /\ v_num v' = v_num v /\ v_den v' = v_den v /\
     v_claimed v' = Z.max (v_claimed v)
         (Z.quot (v_total v * Z.min (h - v_start v) (v_num v)) (v_num v)) /\
     (v_num v <= h - v_start v -> v_claimed v' = v_total v).
 Proof. exact claim_entry_spec. Qed.
 Print Assumptions C14_entry_monotone_le_total_linear_complete.
 
-(* Every history (any interleaving of vest / claim / cancel / vest-now / governance updates, failed
-   transactions included, any heights): for every account, Eden put into vesting = ELYS released +
-   Eden returned by cancels + still outstanding, and every stored entry has 0 <= claimed < total. *)
+(* Every history (any interleaving of vest / vest-liquid / claim / cancel / vest-now / governance updates of either
+   vesting info, failed transactions included, any heights): for every account, PER DENOM,
+     Eden put into vesting      = ELYS released + Eden returned by cancels + still outstanding (ELYS schedules),
+     liquid coins put into vesting = liquid coins released + still outstanding (liquid schedules),
+     liquid wallet + still outstanding (liquid schedules) = the initial liquid wallet (nothing appears or is lost),
+   every stored entry has 0 <= claimed < total, and the commitment module's custody of the liquid denom is exactly
+   the sum over all accounts of what their liquid schedules still owe. *)
 Theorem C14_conservation : forall p l ops i,
-  wf_params p -> Forall (fun '(e, _) => 0 <= e) l ->
+  wf_params p -> Forall init_ok l ->
   let s := run (init_state p l) ops in
   (i < length (s_accts s))%nat ->
   let a := get_acct s i in
   g_in a = g_released a + g_returned a + outstanding a /\
-  Forall (fun v => 0 <= v_claimed v < v_total v) (a_vs a).
+  g_in1 a = g_released1 a + outstanding1 a /\
+  a_usdc a + outstanding1 a = nth i (map (fun '(_, _, u) => u) l) 0 /\ 0 <= a_usdc a /\
+  Forall (fun v => 0 <= v_claimed v < v_total v) (a_vs a) /\
+  s_mod s = zsum (map outstanding1 (s_accts s)) /\
+  length (s_accts s) = length l.
 Proof. exact conservation. Qed.
 Print Assumptions C14_conservation.
 
-(* Claiming what has vested always succeeds, in every reachable state, at every height, and pays exactly the drop in
-   what is outstanding. (Stated for histories in which governance keeps NumBlocks > 0, because the accounting of
-   [outstanding] below is proved for live schedules; that the claim itself cannot fail for ANY schedule length is
-   C14_claim_never_fails.) *)
+(* Claiming what has vested always succeeds, in every reachable state, at every height, whatever schedule lengths
+   governance configured (zero-block schedules included - the former restriction to NumBlocks > 0 is gone): the
+   module always holds the liquid coins the claim pays, and each wallet receives exactly the drop of what is
+   outstanding in the schedules of ITS denom. *)
 Theorem C14_claim_succeeds : forall p l ops i h,
-  wf_params p -> 0 < p_num p -> Forall (fun '(e, _) => 0 <= e) l -> Forall gov_ok ops ->
+  wf_params p -> Forall init_ok l ->
   let s := run (init_state p l) ops in
   (i < length (s_accts s))%nat ->
   exists s', step s (OClaim i h) = Ok s' /\
     0 <= a_elys (get_acct s' i) - a_elys (get_acct s i) /\
-    a_elys (get_acct s' i) - a_elys (get_acct s i) = outstanding (get_acct s i) - outstanding (get_acct s' i).
+    a_elys (get_acct s' i) - a_elys (get_acct s i) = outstanding (get_acct s i) - outstanding (get_acct s' i) /\
+    0 <= a_usdc (get_acct s' i) - a_usdc (get_acct s i) /\
+    a_usdc (get_acct s' i) - a_usdc (get_acct s i) = outstanding1 (get_acct s i) - outstanding1 (get_acct s' i) /\
+    s_mod s' = s_mod s - (a_usdc (get_acct s' i) - a_usdc (get_acct s i)).
 Proof. exact claim_succeeds. Qed.
 Print Assumptions C14_claim_succeeds.
 
-(* ... and since fix: 3c63217 (a zero-block schedule is fully vested instead of dividing by zero) the claim handler
-   cannot fail at all: for EVERY account state, every height and every schedule length, including NumBlocks = 0. *)
+(* ... and since fix: 3c63217 (a zero-block schedule is fully vested instead of dividing by zero) the account part of
+   the claim handler cannot fail at all: for EVERY account state, every height and every schedule length. *)
 Theorem C14_claim_never_fails : forall h a, exists a', claim h a = Ok a'.
 Proof. exact claim_total. Qed.
 Print Assumptions C14_claim_never_fails.
 
+(* A claim pays each denom its own: the ELYS wallet receives exactly the newly vested amounts
+   max(0, vested(h) - claimed) of the ELYS entries, the liquid wallet exactly those of the liquid entries;
+   claimable Eden is not touched. For ANY account state (no invariant needed). *)
+Theorem C14_claim_pays_each_denom_its_own : forall h a a',
+  claim h a = Ok a' ->
+  a_elys a' - a_elys a = zsum (map (newly h) (filter is0 (a_vs a))) /\
+  a_usdc a' - a_usdc a = zsum (map (newly h) (filter non0 (a_vs a))) /\
+  a_eden a' = a_eden a.
+Proof. exact claim_pays_each_denom. Qed.
+Print Assumptions C14_claim_pays_each_denom_its_own.
+
 (* a zero-block schedule is released in full by the first claim *)
 Theorem C14_zero_block_schedule_released_at_once : forall h v, wf_entry v -> v_num v = 0 ->
-  claim_entry true h v = Ok (v_total v - v_claimed v, mkV (v_total v) (v_total v) (v_start v) (v_num v)).
+  claim_entry true h v = Ok (v_total v - v_claimed v, mkV (v_total v) (v_total v) (v_start v) (v_num v) (v_den v)).
 Proof. exact claim_entry_zero. Qed.
 Print Assumptions C14_zero_block_schedule_released_at_once.
 
-(* Once every schedule of the account has elapsed one claim pays out everything outstanding. *)
+(* Once every schedule of the account has elapsed one claim pays out everything outstanding, each denom to its
+   own wallet (zero-block schedules included). *)
 Theorem C14_complete_at_end : forall a h,
-  wf_acct a -> live_acct a -> Forall (fun v => v_num v <= h - v_start v) (a_vs a) ->
-  exists a', claim h a = Ok a' /\ a_vs a' = [] /\ a_elys a' = a_elys a + outstanding a.
+  wf_acct a -> Forall (fun v => v_num v <= h - v_start v) (a_vs a) ->
+  exists a', claim h a = Ok a' /\ a_vs a' = [] /\
+    a_elys a' = a_elys a + outstanding a /\ a_usdc a' = a_usdc a + outstanding1 a.
 Proof. exact complete_at_end. Qed.
 Print Assumptions C14_complete_at_end.
 
 (* Cancel returns exactly the cancelled amount as claimable Eden, takes exactly that amount out of
-   the not-yet-released part, and releases nothing. *)
-Theorem C14_cancel_exact : forall amt a a',
-  wf_acct a -> cancel amt a = Ok a' ->
+   the not-yet-released part of the ELYS schedules, releases nothing, and leaves the liquid schedules and wallet alone. *)
+Theorem C14_cancel_exact : forall d amt a a',
+  wf_acct a -> cancel d amt a = Ok a' ->
   wf_acct a' /\ (live_acct a -> live_acct a') /\
-  a_eden a' = a_eden a + amt /\ a_elys a' = a_elys a /\
-  outstanding a' = outstanding a - amt /\ g_returned a' = g_returned a + amt /\
-  g_released a' = g_released a.
+  a_eden a' = a_eden a + amt /\ a_elys a' = a_elys a /\ a_usdc a' = a_usdc a /\
+  outstanding a' = outstanding a - amt /\ outstanding1 a' = outstanding1 a /\
+  g_returned a' = g_returned a + amt /\
+  g_released a' = g_released a /\ g_usdc0 a' = g_usdc0 a /\ d = 0 /\ 0 < amt.
 Proof. exact cancel_inv. Qed.
 Print Assumptions C14_cancel_exact.
+
+(* A cancel touches only the entries of its denom: in the list [mid] the loop leaves behind (same length, position
+   by position) every entry of another denom is the very same entry at the very same index and no entry changes
+   its denom; the final drop-filter removes none of the other-denom entries; hence the sub-list of the other denoms
+   is unchanged, and so are the liquid wallet and what the liquid schedules still owe. *)
+Theorem C14_cancel_touches_only_its_denom : forall d amt a a',
+  wf_acct a -> cancel d amt a = Ok a' ->
+  exists mid,
+    Forall2 (fun v v' => (is0 v = false -> v' = v) /\ is0 v' = is0 v) (a_vs a) mid /\
+    a_vs a' = filter cancel_keep mid /\
+    Forall (fun v => is0 v = false -> cancel_keep v = true) mid /\
+    filter non0 (a_vs a') = filter non0 (a_vs a) /\
+    a_usdc a' = a_usdc a /\ outstanding1 a' = outstanding1 a.
+Proof. exact cancel_other_denoms. Qed.
+Print Assumptions C14_cancel_touches_only_its_denom.
+
+(* Vest-liquid moves exactly the amount from the wallet into a new schedule of the liquid denom (appended at the
+   end of the one list, with the NumBlocks of THAT denom's info); the ELYS side is untouched. *)
+Theorem C14_vest_liquid_exact : forall h amt li a a',
+  wf_acct a -> (match li with Some x => 0 <= l_num x | None => True end) -> vest_liquid h amt li a = Ok a' ->
+  wf_acct a' /\ 0 < amt /\
+  a_eden a' = a_eden a /\ a_elys a' = a_elys a /\ a_usdc a' = a_usdc a - amt /\ g_in1 a' = g_in1 a + amt /\
+  outstanding a' = outstanding a /\ outstanding1 a' = outstanding1 a + amt /\ g_usdc0 a' = g_usdc0 a /\
+  exists x, li = Some x /\ a_vs a' = a_vs a ++ [mkV amt 0 h (l_num x) 1].
+Proof. exact vest_liquid_inv. Qed.
+Print Assumptions C14_vest_liquid_exact.
 
 (* Vest-now pays exactly amount / factor (integer division) and debits exactly amount. *)
 Theorem C14_vest_now_exact : forall amt p a a',
   wf_acct a -> 0 < p_factor p -> vest_now amt p a = Ok a' ->
   wf_acct a' /\ a_vs a' = a_vs a /\
   a_eden a' = a_eden a - amt /\ a_elys a' = a_elys a + Z.quot amt (p_factor p) /\
-  0 <= Z.quot amt (p_factor p) <= amt.
+  0 <= Z.quot amt (p_factor p) <= amt /\ a_usdc a' = a_usdc a /\ g_usdc0 a' = g_usdc0 a.
 Proof. exact vest_now_inv. Qed.
 Print Assumptions C14_vest_now_exact.
 
-(* The code at the pinned commit (before the fix: commit): claim - cancel - claim panics. *)
+(* The code at the pinned commit (before the fix: commit): claim - cancel - claim panics (here with a liquid
+   schedule of the other denom in front of the ELYS schedule). *)
 Theorem C14_prefix_claim_after_cancel_refuted :
-  let s := fold_left exec_prefix (firstn 3 refute_ops) refute_init in
+  let s := fold_left exec_prefix (firstn 5 refute_ops) refute_init in
   Inv s /\ Live s /\ step_prefix s (OClaim 0 61) = Panic P_negcoin.
 Proof. exact prefix_refuted. Qed.
 Print Assumptions C14_prefix_claim_after_cancel_refuted.
 
-(* non-vacuity: the hypotheses are met by a state the harness really builds *)
+(* non-vacuity: the hypotheses are met by a state the harness really builds; list [usdc; elys; usdc], cancel of the
+   ELYS entry in the middle, claims paying both wallets *)
 Example C14_nonvacuous :
-  let s := run (init_state (mkP 100 10 90 true) [(1000, 5); (2000, 0)])
-               [OVest 0 10 900; OClaim 0 60; OCancel 0 400; OClaim 0 61; OVestNow 1 180; OClaim 0 200] in
+  let s := run (init_state (mkP 100 10 90 true) [(1000, 5, 700); (2000, 0, 0)])
+               [OGovL 20 10 1; OVestLiquid 0 10 200; OVest 0 10 900; OVestLiquid 0 10 100; OClaim 0 60;
+                OCancel 0 0 400; OClaim 0 61; OVestNow 1 180; OClaim 0 200] in
   a_elys (get_acct s 0) = 505 /\ a_eden (get_acct s 0) = 500 /\ a_vs (get_acct s 0) = [] /\
+  a_usdc (get_acct s 0) = 700 /\ s_mod s = 0 /\
   a_elys (get_acct s 1) = 2.
 Proof. vm_compute. repeat split. Qed.
